@@ -144,8 +144,32 @@ def props_status(pid, cfgp):
     return rc, out, theorems, closed, ax_names
 
 
-def grep_guard():
-    """no Admitted/admit/Axiom/... anywhere in the development"""
+def cone_files(targets):
+    """transitive .v dependencies of the given .vo targets, from coq_makefile's .Makefile.d"""
+    deps = {}
+    try:
+        txt = open(os.path.join(COQ, ".Makefile.d")).read().replace("\\\n", " ")
+    except OSError:
+        return None
+    for line in txt.split("\n"):
+        if ":" not in line:
+            continue
+        lhs, rhs = line.split(":", 1)
+        for t in lhs.split():
+            if t.endswith(".vo"):
+                deps[t] = [d for d in rhs.split() if d.endswith(".vo")]
+    seen, todo = set(), list(targets)
+    while todo:
+        t = todo.pop()
+        if t in seen:
+            continue
+        seen.add(t)
+        todo.extend(deps.get(t, []))
+    return {t[:-1] for t in seen}
+
+
+def grep_guard(only=None):
+    """no Admitted/admit/Axiom/... in the development (only: restrict to these .v files)"""
     bad = []
     pat = re.compile(r"\b(Admitted|admit|Axiom|Axioms|Parameter|Parameters|Conjecture|Conjectures|Hypothesis|Hypotheses|Variable|Variables|Context)\b|Unset Guard|bypass_check|type-in-type|impredicative-set|Admit Obligations")
     for d in ("lib", "model", "proofs", "props", "gen"):
@@ -154,6 +178,8 @@ def grep_guard():
             continue
         for fn in sorted(os.listdir(dd)):
             if not fn.endswith(".v"):
+                continue
+            if only is not None and (d + "/" + fn) not in only:
                 continue
             depth = 0
             txt = open(os.path.join(dd, fn)).read()
@@ -253,7 +279,7 @@ def main():
             proof_ok = False
             err = parse_coq_error(passum)
             broken.append({"kind": "proof", "name": cfgp["props_file"], "detail": err["error"]})
-    guard = grep_guard()
+    guard = grep_guard(None if os.environ.get("VERIF_GUARD_ALL") else cone_files(cfgp["coq_targets"] + cfgp.get("model_targets", [])))
     if guard:
         proof_ok = False
         broken.append({"kind": "proof", "name": "grep-guard", "detail": "; ".join(guard[:10])})
